@@ -17,6 +17,12 @@ TOKENS = ["BEGIN:", "END:", "VCALENDAR", "VEVENT", "VTODO", "VTIMEZONE", "STANDA
           "20240101T000000/20240101", "20240101T000000Z/20240102T000000", "20240101/20240102", "20240101/P1D", "TRIGGER", "REPEAT", "ACTION", "SUMMARY", "GEO", "1.0;2.0", "x;y",
           "ATTACH", "ENCODING=BASE64", "!!!", "ATTENDEE", "CN=", "ROLE=CHAIR,,OPT", 'MEMBER="mailto:a",', "TZID=Europe/Berlin,Europe/Paris", "TZID=Europe/Berlin,",
           "00010101T000000", "99991231T235959", "TZID=Asia/Tokyo", "X-COMMENT", "0", "-1", "a", "ä", "\x00", "﻿", "%2C", "PRIORITY", "SEQUENCE", "abc"]
+# time zone ids a hostile file may carry: directories and files of the tz database, over-long names in characters and in BYTES
+# (<= 255 characters but > 255 octets), path tricks, control characters, lone surrogates
+HOSTILE_TZIDS = ["Europe", "America/Indiana", "A" * 300, "A" * 255, "A" * 256, "Europe/" + "A" * 255, "a/" * 200, "\u00e9" * 130, "\u00e9" * 127 + "a",
+                 "\u00e9" * 300, "\U0001F600" * 64, "/x", "", " ", ".", "..", "Europe/..", "../../x", "Europe/Berlin/", "Europe/Berlin ", "europe/berlin",
+                 "\x00", "Europe/Berlin\x00", "Etc/GMT+0\n", "posixrules", "tzdata.zi", "zone.tab", "GMT+1", "+01:00", "\ud800", "x\ud800y"]
+TOKENS += ["TZID=" + t for t in HOSTILE_TZIDS if "\ud800" not in t and "\n" not in t and t not in ("A" * 300,)]
 VTZ = """BEGIN:VTIMEZONE
 TZID:Custom
 BEGIN:STANDARD
@@ -101,7 +107,8 @@ def gen(rnd, maxlen):
     elif kind == 5:
         s = "".join(chr(rnd.choice([rnd.randrange(0, 256), rnd.randrange(0, 0x3000)])) for _ in range(rnd.randint(0, 200)))
     else:
-        s = BASE.replace("Custom", rnd.choice(["Europe", "A" * 300, "/Europe/Berlin", "Europe/Berlin,Europe/Paris", "", "\\", "Etc/GMT+25", "../../etc/passwd"]))
+        s = BASE.replace("Custom", rnd.choice(["Europe", "A" * 300, "/Europe/Berlin", "Europe/Berlin,Europe/Paris", "", "\\", "Etc/GMT+25", "../../etc/passwd"]
+                                              + [t for t in HOSTILE_TZIDS if "\n" not in t]))
     return s[:maxlen]
 
 
@@ -279,7 +286,7 @@ def confirm(oid, bad_classes=None):
                     return None
                 calls = [cls.from_ical]
                 if cn in ("vDatetime", "vDDDTypes", "vDDDLists", "vPeriod"):
-                    for tz in ("Europe/Berlin", "Asia/Tokyo", "Europe", "A" * 300, "x"):
+                    for tz in ["Europe/Berlin", "Asia/Tokyo", "x"] + HOSTILE_TZIDS:
                         calls.append(lambda t, tz=tz: cls.from_ical(t, tz))
                     calls.append(lambda t: cls.from_ical(t, ["Europe/Berlin", "Europe/Paris"]))
                 for c in calls:
@@ -310,7 +317,7 @@ def confirm(oid, bad_classes=None):
                 if r:
                     return {"constructor": cn, "text": r[0], "provider": prov}, f"{cn}({cn}.from_ical({r[0]!r})) raises {r[1]} [{prov}]"
             elif ".T." in oid:
-                for t in TOKENS + ["Europe", "A" * 300, "/x", "", "\x00", "../../x", "Europe/Berlin/"]:
+                for t in TOKENS + HOSTILE_TZIDS:
                     try:
                         icalendar.timezone.tzp.timezone(t)
                     except Exception as e:  # noqa
